@@ -26,7 +26,7 @@ THEOREMS = ['C12_no_holes_unchanged', 'C12_hole_index_start_and_return', 'C12_ho
             'C12_region_same_direction_decisive', 'C12_region_polygon_accounting', 'C12_region_closed_area_normal',
             'C12_region_merged_normal_planar', 'C12_region_closed_region', 'C12_region_every_vertex', 'C12_region_no_new_vertex',
             'C12_region_no_holes', 'C12_region_scan_cases', 'C12_region_hits_wf', 'C12_region_hits_wf_any_instance',
-            'C12_region_within_reach_wf', 'C12_region_far_holes_refuted']
+            'C12_region_within_reach_wf', 'C12_region_bounded_coords_wf', 'C12_region_far_holes_pinned_refuted', 'C12_region_far_holes_now_merged']
 
 def streams(tier):
     if tier == 'quick': return [Stream('C12', 700)]
